@@ -1,5 +1,5 @@
 CONSTANTS
-  Alphabet = {"TXT", "NL", "CRLF", "CR", "SL", "NLSL", "NLBC", "BC", "BO", "LC", "TDQ", "DDQ", "QDQ", "PDQ", "BS", "HASH", "BT", "DQ"}
+  Alphabet = {"TXT", "NL", "CRLF", "CR", "SL", "NLSL", "NLBC", "BCCR", "BC", "BO", "LC", "TDQ", "DDQ", "QDQ", "PDQ", "BS", "HASH", "BT", "DQ"}
   MaxLen = 2
 INIT Init
 NEXT Next
